@@ -305,24 +305,16 @@ def run(facts, res):
 
 
 def _leads_to_ok_return(body, block):
-    """the loop exit edge ends the function with a value other than an error (first-match result)"""
+    """the loop exit edge can end the function with a non-error value (break / first match) - i.e. an
+    `_0 = Ok(..)` / plain value assignment is reachable from it"""
     cfg = cfg_of(body)
-    seen = set()
-    b = block
-    for _ in range(40):
-        if b in seen:
-            return False
-        seen.add(b)
-        blk = body.blocks[b]
-        for st in blk.stmts:
-            if st.kind == "assign" and st.place.local == 0 and st.rv.kind == "agg":
-                return st.rv.j.get("variant") not in ("Err",)
-        if blk.term.kind == "return":
-            return False
-        ss = cfg.block_succs(b)
-        if len(ss) != 1:
-            return False
-        b = ss[0]
+    reach = cfg.reachable_blocks(block) | {block}
+    for b in reach:
+        for st in body.blocks[b].stmts:
+            if st.kind == "assign" and st.place.local == 0 and not st.place.proj:
+                if st.rv.kind == "agg" and st.rv.j.get("variant") == "Err":
+                    continue
+                return True
     return False
 
 
